@@ -7,6 +7,7 @@ import (
 	"net/netip"
 	"sort"
 	"strings"
+	"sync"
 	"time"
 
 	"github.com/miekg/dns"
@@ -28,6 +29,7 @@ type C13Op struct {
 	Type       uint16 `json:"type"`
 	CD         bool   `json:"cd,omitempty"`
 	DeadlineMs int    `json:"deadline_ms,omitempty"` // client-side deadline (request-local cause)
+	Burst      int    `json:"burst,omitempty"`       // >1: this many identical copies of the question in flight at once (a leader and its followers)
 	Sub        int    `json:"sub,omitempty"`         // 1-based index into c13Subnets: the client-subnet option sent (ECS scenarios)
 }
 
@@ -138,6 +140,9 @@ func genC13(r *kit.RNG) *C13Scenario {
 		}
 		if sc.ECS && r.Chance(0.6) {
 			op.Sub = 1 + r.Intn(len(c13Subnets))
+		}
+		if r.Chance(0.12) {
+			op.Burst = r.Range(2, 5)
 		}
 		if r.Chance(0.12) {
 			op.DeadlineMs = kit.Pick(r, []int{50, 300, 1500})
@@ -346,15 +351,68 @@ func execC13(sc *C13Scenario, tr *kit.Trace, res *kit.Result) {
 		}
 		c := &world.Client{Local: &net.UDPAddr{IP: net.IPv4(10, 0, 0, 53), Port: 53}, Remote: net.UDPAddrFromAddrPort(netip.MustParseAddrPort("10.9.0.1:40000"))}
 		t0 := time.Now()
-		w.Srv.ServeMsg(ctx, c, q)
-		lat := time.Since(t0)
-		if cancel != nil {
-			cancel()
+		qkey := fmt.Sprintf("%s/%d/%v/%s", dns.CanonicalName(op.Name), op.Type, op.CD, c13Audience(sc, op))
+		var lat time.Duration
+		if op.Burst > 1 && op.DeadlineMs == 0 && sc.Budget == 0 {
+			// (not under a tiny work budget: there each copy has its own budget and the copies end
+			// differently — one exhausted, another finding the zone failing — so that the burst
+			// has no single outcome for the model to record)
+			// identical questions in flight at once: one of them leads the lookup, the others wait
+			// for it. When the leader's resolution fails, the failure is recorded before the
+			// followers wake; they are answered from it and start no resolution of their own.
+			_, hadHistory := qFails[qkey]
+			netStart := w.Net.Now()
+			clients := make([]*world.Client, op.Burst)
+			doneAt := make([]time.Duration, op.Burst)
+			var wg sync.WaitGroup
+			for k := range clients {
+				clients[k] = &world.Client{Local: c.Local, Remote: net.UDPAddrFromAddrPort(netip.MustParseAddrPort(fmt.Sprintf("10.9.0.1:%d", 40000+k)))}
+				wg.Add(1)
+				go func(k int) {
+					defer wg.Done()
+					w.Srv.ServeMsg(context.Background(), clients[k], q.Copy())
+					doneAt[k] = w.Net.Now()
+				}(k)
+			}
+			wg.Wait()
+			lead := 0
+			for k := range clients {
+				if len(clients[k].Replies) != 1 {
+					res.Fail("C13/reply-count", "op %d: copy %d of a burst of %d identical questions got %d replies", i, k, op.Burst, len(clients[k].Replies))
+					return
+				}
+				if doneAt[k] < doneAt[lead] {
+					lead = k
+				}
+			}
+			c = clients[lead]
+			lat = doneAt[lead] - netStart
+			kit.SleepSettle(300 * time.Millisecond)
+			lm := c.Replies[0]
+			if lm.Rcode == dns.RcodeServerFailure && !sc.RFC9520Off && sc.Budget == 0 && !hadHistory && !strings.HasPrefix(edeText(lm), "13 ") {
+				late := 0
+				for _, snt := range w.Net.Canonical() {
+					if snt.At > doneAt[lead]+20*time.Millisecond && strings.EqualFold(snt.Name, dns.CanonicalName(op.Name)) && snt.Qtype == op.Type {
+						late++
+					}
+				}
+				res.Probes["burst-led-to-failure"]++
+				if late > 0 {
+					res.Fail("C13/follower-retried-during-backoff", "op %d %s/%s: %d identical questions were in flight; the first was answered SERVFAIL (%s) at %v and the failure was recorded, yet %d more upstream queries for this very question were sent afterwards: followers of the failed lookup resolved again instead of being answered from the recorded failure",
+						i, op.Name, dns.TypeToString[op.Type], op.Burst, edeText(lm), doneAt[lead], late)
+					return
+				}
+			}
+		} else {
+			w.Srv.ServeMsg(ctx, c, q)
+			lat = time.Since(t0)
+			if cancel != nil {
+				cancel()
+			}
+			kit.SleepSettle(300 * time.Millisecond)
 		}
-		kit.SleepSettle(300 * time.Millisecond)
 		done := since()
 		upstream := w.Net.SentCount() - sentBefore
-		qkey := fmt.Sprintf("%s/%d/%v/%s", dns.CanonicalName(op.Name), op.Type, op.CD, c13Audience(sc, op))
 		selfFailing := strings.HasPrefix(op.Name, "loop.") // fails by its own data; its zone is healthy
 		zone := zoneOf(op.Name, arrive)
 		rc, ede := "none", ""
